@@ -1848,6 +1848,7 @@ def case_streams(ctx):
         env["PYTHONPYCACHEPREFIX"] = os.path.join(tempfile.gettempdir(), "vmon-pycache-%d" % os.getuid())
         env.pop("PYTHONDONTWRITEBYTECODE", None)
         env["PAGER"] = "cat"
+        env["TMPDIR"] = scratch           # the tools leave the file they hand to the pager behind: keep it inside the scratch directory
 
         def code(tool):
             return "import sys; sys.path.insert(0, %r); sys.argv[0] = %r; from cnfgen.clitools.%s import main; main()" % (REPO, tool, tool)
